@@ -31,12 +31,29 @@ ASSUMPTIONS = [
     "the single permitted write is the --output file of the envelope-decrypt tool",
 ]
 ALPHABET = "entry point x input kind x error path"
-BOUND = {"quick": "the full census (about 150 executions)", "thorough": "same"}
+BOUND = {"quick": "the full census (about 120 executions)",
+         "thorough": "the census plus every quick-tier execution of C07, C10, C12, C14-C20 repeated under the monitor"}
 EXPECT_OUTCOMES = ["clean"]
 
 
+# thorough tier: the explorations of the path-driven checks run once more with the audit monitor armed and write-trapping
+# handles in place -- every library-attributed event of every one of their executions is judged ("monitor over all explorations")
+FOREIGN = ["c07", "c10", "c12", "c14", "c19", "c16", "c18", "c20", "c17", "c15"]
+
+
 def shards(tier):
-    return [{"group": g} for g in ("handles", "paths", "errors", "cli", "census")]
+    out = [{"group": g} for g in ("handles", "paths", "errors", "cli", "census")]
+    if tier != "quick":
+        import importlib
+
+        for name in FOREIGN:
+            mod = importlib.import_module("mc.checks." + name)
+            sh = mod.shards("quick")
+            for i, x in enumerate(sh):
+                if x.get("buf") not in (None, 8192):
+                    continue
+                out.append({"group": "foreign", "module": name, "index": i, "buf": x.get("buf")})
+    return out
 
 
 # ---- workload ---------------------------------------------------------------------------------------------------------------
@@ -239,6 +256,9 @@ def _work_errors():
             yield f"error:{kind}:{how}", f, True
 
 
+_HELD = {}
+
+
 def _populate(d):
     """Path-based inputs: written once into the evidence directory, which is then made read-only."""
     from mc.builders import hdd as BH
@@ -268,6 +288,19 @@ def _populate(d):
                                    parent_cid="00000001", parent_hint="base.vmdk"))
     with open(os.path.join(vm, "missing-extent.vmdk"), "w") as f:
         f.write(BM.descriptor_text("custom", [("RW", 24, "SPARSE", "nothere-s001.vmdk", None)]))
+    # descriptors the caller holds open itself (delete-on-close temporary files in the evidence directory): whatever the
+    # library does with a handle it was given, the file must still be there afterwards
+    import tempfile
+
+    for tag, text in (("missing-extent", BM.descriptor_text("custom", [("RW", 24, "SPARSE", "nothere-s001.vmdk", None)])),
+                      ("missing-parent", BM.descriptor_text("custom", [("RW", 24, "SPARSE", "base-s001.vmdk", None)], cid="3",
+                                                            parent_cid="9", parent_hint="nothere.vmdk")),
+                      ("valid", BM.descriptor_text("custom", [("RW", 24, "SPARSE", "base-s001.vmdk", None)]))):
+        t = tempfile.NamedTemporaryFile(mode="w+b", dir=vm, prefix=f"held-{tag}-", suffix=".vmdk")
+        t.write(text.encode())
+        t.flush()
+        t.seek(0)
+        _HELD[tag] = t
     with open(os.path.join(vm, "missing-parent.vmdk"), "w") as f:
         f.write(BM.descriptor_text("custom", [("RW", 24, "SPARSE", "base-s001.vmdk", None)], cid="3", parent_cid="9",
                                    parent_hint="nothere.vmdk"))
@@ -366,6 +399,13 @@ def _work_paths(vm, g0):
     yield "path:vmdk:extent-Path", (lambda: vmdk(Path(vm) / "base-s001.vmdk")), False
     yield "path:vmdk:missing-extent", expect_fail(lambda: vmdk(Path(vm) / "missing-extent.vmdk")), True
     yield "path:vmdk:missing-parent", expect_fail(lambda: vmdk(Path(vm) / "missing-parent.vmdk")), True
+    for tag in ("missing-extent", "missing-parent", "valid"):
+        def held(tag=tag):
+            fh = _HELD[tag]
+            fh.seek(0)
+            vmdk(fh)
+
+        yield f"path:vmdk:held-descriptor-handle:{tag}", (held if tag == "valid" else expect_fail(held)), tag != "valid"
 
     def hdd(arg, guid=None):
         from dissect.hypervisor.disk.hdd import HDD
@@ -402,7 +442,7 @@ def _work_paths(vm, g0):
 
 
 def run_shard(shard, ctx):
-    run_case({"group": shard["group"]}, ctx)
+    run_case({k: v for k, v in shard.items() if k != "buf"}, ctx)
 
 
 def _judge(ctx, case, name, events, allow_output=None, opened_sites=None):
@@ -447,6 +487,8 @@ def run_case(case, ctx):
     ctx.sample(case)
     if group == "census":
         return _census(case, ctx)
+    if group == "foreign":
+        return _foreign(case, ctx)
     with scratch_dir() as d:
         vm = g0 = None
         if group in ("paths", "cli"):
@@ -480,12 +522,63 @@ def run_case(case, ctx):
                 ctx.nontrivial += 1
             if not _judge(ctx, case, name, evs, allow, sites):
                 return
-            if group in ("paths",) and tree_digest(d) != before:
+            if group in ("paths", "cli") and tree_digest(d) != before:
                 ctx.violation(dict(case, only=name), {"subject": "read-only", "kind": "evidence-directory-changed"}, {"execution": name})
                 return
             ctx.outcome("clean")
         for s in sorted(sites):
             ctx.extra["opened-at:" + s] += 1
+        for t in list(_HELD.values()):
+            try:
+                t.close()
+            except Exception:
+                pass
+        _HELD.clear()
+
+
+def _foreign(case, ctx):
+    """One quick-tier shard of another check, executed under the audit monitor; that check's own verdicts are not of interest
+    here (they are its business), only what the library did to files, handles, processes and the network meanwhile."""
+    import importlib
+
+    from mc import engine
+
+    mod = importlib.import_module("mc.checks." + case["module"])
+    shard = mod.shards("quick")[case["index"]]
+    sub = engine.Ctx(mod.PROPERTY, None, 0, collect_all=True)
+    del vfile.MUTATIONS[:]
+    with monitors.armed() as events:
+        try:
+            mod.run_shard(shard, sub)
+        except engine.StopShard:
+            pass
+        evs = list(events)
+    ctx.transitions += sub.transitions
+    ctx.states += sub.states
+    ctx.extra["foreign-executions:" + case["module"]] += sub.executions
+    lib = [e for e in evs if e[2] is not None]
+    ctx.extra["foreign-library-events:" + case["module"]] += len(lib)
+    if any(e[0] == "open" for e in lib):
+        ctx.nontrivial += 1
+    allow = None
+    # the decrypt tool's --output files (C16's command-line cases) are the one permitted write
+    outs = sorted({e[1][0] for e in lib if monitors.classify(e) == "write-open" and e[2].startswith("tools/envelope.py")
+                   and isinstance(e[1][0], str) and os.path.basename(e[1][0]) == "out.bin"})
+    for e in lib:
+        cls = monitors.classify(e)
+        if cls == "write-open" and e[1] and e[1][0] in outs:
+            continue
+        if cls in ("write-open", "mutation", "network"):
+            ctx.violation(case, {"subject": "read-only", "kind": cls, "event": e[0], "site": e[2], "during": case["module"]},
+                          {"event": repr(e)[:300], "shard": repr(shard)[:200]})
+            return
+    if vfile.MUTATIONS:
+        m = list(vfile.MUTATIONS)
+        del vfile.MUTATIONS[:]
+        ctx.violation(case, {"subject": "read-only", "kind": "handle-mutated", "method": m[0][1], "during": case["module"]},
+                      {"calls": m[:3], "shard": repr(shard)[:200]})
+        return
+    ctx.outcome("clean")
 
 
 def _populate_cli(vm):
@@ -537,6 +630,19 @@ def _work_cli(vm, d):
                 pass
 
         yield "cli:corrupt-envelope", failing, True, out2
+        def relative_output():
+            # run from a case directory that is not the evidence directory, with a relative --output: the file belongs there
+            cwd = os.getcwd()
+            os.chdir(outdir)
+            try:
+                run(os.path.join(vm, "local.tgz.ve"), os.path.join(vm, "encryption.info"), "local.tgz")()
+            finally:
+                os.chdir(cwd)
+
+        yield "cli:relative-output-from-another-directory", relative_output, False, "local.tgz"
+        lst = sorted(os.listdir(outdir))
+        if "local.tgz" not in lst or not set(lst) <= {"local.tgz", "out.bin", "out2.bin"}:
+            yield "cli:relative-output-misplaced:" + ",".join(lst), (lambda: (_ for _ in ()).throw(AssertionError("relative --output not written to the working directory: %r" % lst))), False
         yield "cli:missing-input", run(os.path.join(vm, "nothere.ve"), os.path.join(vm, "encryption.info"), os.path.join(outdir, "o3")), True
 
         def no_output_argument():
